@@ -63,6 +63,7 @@ THEOREMS = [
     'CpProofs.C01Boundary.C01B_chunks_bytes_unchecked_false',
     'CpProofs.C01Boundary.C01B_chunks_bytes_iff_checked',
     'CpProofs.C01Boundary.C01B_chunks_bytes_partial',
+    'CpProofs.C01Boundary.C01B_read_fuel_irrelevant',
     # InternalRedirector with query strings (lean/CpModel/RedirQ.lean)
     'CpProofs.C01Redirect.redirector_terminates',
     'CpProofs.C01Redirect.redirector_fuel_irrelevant',
